@@ -66,6 +66,36 @@ pub fn generate(rng: &mut Rng, tier: &str, shard: usize, nshards: usize, out: &m
     for a in 1..lim { for b in 1..lim {
         emit(format!("C08\tdiv\tRDRD\t{}\t{}@0\t{}@0", c.prec, a, b), &mut n);
     } }
+    // boundary cases of the configured limits: appended characters (integer zeros + point + fraction
+    // zeros) one below, at, and one above the padding limit; trailing zeros at the upper threshold
+    for tot in [c.pad as i64 - 1, c.pad as i64, c.pad as i64 + 1] {
+        for p in [0i64, 1, 4] {
+            let frac = if p > 0 { p + 1 } else { 0 };
+            let z = tot - frac;
+            if z < 0 { continue; }
+            for iv in [1i64, -37, 905] {
+                let d = dec(BigInt::from(iv), -z);
+                for kind in ["display", "e"] {
+                    emit(format!("C16\tfmt\t{}\t \t-\t0\t0\t-\t{}\t{}\t{}", kind, p, show(&d), cs), &mut n);
+                }
+            }
+        }
+    }
+    for z in [c.high as i64 - 1, c.high as i64, c.high as i64 + 1, c.pad as i64 - 1, c.pad as i64, c.pad as i64 + 1] {
+        if z < 0 { continue; }
+        for iv in [1i64, -37, 905] {
+            let d = dec(BigInt::from(iv), -z);
+            for kind in ["display", "tostring", "display_ref"] { emit(format!("C04\trender\t{}\t{}\t{}", kind, show(&d), cs), &mut n); }
+        }
+    }
+    for lz in [c.low as i64 - 1, c.low as i64, c.low as i64 + 1] {
+        if lz < 0 { continue; }
+        for iv in [1i64, -37, 905] {
+            let l = iv.abs().to_string().len() as i64;
+            let d = dec(BigInt::from(iv), l + lz);      // 0.<lz zeros>ddd
+            for kind in ["display", "tostring", "display_ref"] { emit(format!("C04\trender\t{}\t{}\t{}", kind, show(&d), cs), &mut n); }
+        }
+    }
     let total = if thorough { 40_000 } else { 4_000 };
     for _ in 0..total {
         let sa = rng_scale(rng);
